@@ -102,6 +102,11 @@ func TestWorker(t *testing.T) {
 			}
 			c, s, sc := mk(i)
 			runOne(t, c, s, sc, out, i)
+			if out.ShouldRecycle() {
+				out.Count("recycled_workers", 1)
+				out.Finish("restart", i+1)
+				return
+			}
 		}
 		out.Finish("done", -1)
 	}
